@@ -532,6 +532,8 @@ def r22_adapters(src):
     src, k = apply_pattern(src, '$X:chain . iter ( ) . all ( | $V:id | $B:args )',
                            '({ let mut __all = true; for $V in $X.iter() { if !($B) { __all = false; break; } } __all })')
     n += k
+    src, k = apply_pattern(src, '$X:chain . iter ( ) . for_each ( | $V:id | $B:block ) ;', 'for $V in $X.iter() $B')
+    n += k
     src, k = apply_pattern(src, '$X:chain . iter ( ) . any ( | $V:id | $B:args )',
                            '({ let mut __any = false; for $V in $X.iter() { if $B { __any = true; break; } } __any })')
     n += k
